@@ -20,12 +20,12 @@ type xS struct {
 }
 
 type xSegTemplate struct {
-	Media       string   `xml:"media,attr"`
-	StartNumber *uint64  `xml:"startNumber,attr"`
-	Timescale   *uint64  `xml:"timescale,attr"`
-	Duration    *uint64  `xml:"duration,attr"`
-	PTO         *uint64  `xml:"presentationTimeOffset,attr"`
-	ATO         string   `xml:"availabilityTimeOffset,attr"`
+	Media       string  `xml:"media,attr"`
+	StartNumber *uint64 `xml:"startNumber,attr"`
+	Timescale   *uint64 `xml:"timescale,attr"`
+	Duration    *uint64 `xml:"duration,attr"`
+	PTO         *uint64 `xml:"presentationTimeOffset,attr"`
+	ATO         string  `xml:"availabilityTimeOffset,attr"`
 	Timeline    *struct {
 		S []xS `xml:"S"`
 	} `xml:"SegmentTimeline"`
@@ -47,16 +47,16 @@ type xAS struct {
 		Codecs   string `xml:"codecs,attr"`
 		MimeType string `xml:"mimeType,attr"`
 	} `xml:"Representation"`
-	Inband        []xDescriptor `xml:"InbandEventStream"`
-	Supplemental  []xDescriptor `xml:"SupplementalProperty"`
-	ContentProt   []xDescriptor `xml:"ContentProtection"`
+	Inband       []xDescriptor `xml:"InbandEventStream"`
+	Supplemental []xDescriptor `xml:"SupplementalProperty"`
+	ContentProt  []xDescriptor `xml:"ContentProtection"`
 }
 
 type xPeriod struct {
-	ID       string `xml:"id,attr"`
-	Start    string `xml:"start,attr"`
+	ID       string   `xml:"id,attr"`
+	Start    string   `xml:"start,attr"`
 	BaseURLs []string `xml:"BaseURL"`
-	Sets     []xAS  `xml:"AdaptationSet"`
+	Sets     []xAS    `xml:"AdaptationSet"`
 }
 
 type xMPD struct {
